@@ -169,7 +169,26 @@ func (a *inMemoryAdapter) DisconnectSockets(opts *BroadcastOptions, close bool) 
 	})
 }
 
+// The options come from the caller of the exported API: opts, opts.Rooms and opts.Except can be nil
+// (for example Sockets(nil), or a BroadcastOptions literal). A nil set is an empty set.
+// Without this, a method call on a nil set would panic with the mutex of the adapter held (see `apply`).
+func normalizeBroadcastOptions(opts *BroadcastOptions) *BroadcastOptions {
+	n := new(BroadcastOptions)
+	if opts != nil {
+		*n = *opts
+	}
+	if n.Rooms == nil {
+		n.Rooms = mapset.NewSet[Room]()
+	}
+	if n.Except == nil {
+		n.Except = mapset.NewSet[Room]()
+	}
+	return n
+}
+
 func (a *inMemoryAdapter) apply(opts *BroadcastOptions, callback func(socket Socket)) {
+	opts = normalizeBroadcastOptions(opts)
+
 	a.mu.Lock()
 
 	exceptSids := a.computeExceptSids(opts.Except)
